@@ -56,6 +56,5 @@ def showErr : Option Fault → String
   | some .dangling => " !dangling"
   | some .debugAssert => " !debug-assert"
   | some .unreachable => " !unreachable"
-  | some .outOfFuel => " !out-of-fuel"
 
 end GcArena
